@@ -262,4 +262,5 @@ def main():
 # the regenerated facts (lean/Cog/Gen/*, .work/c18_table.json) are global files: two C18 runs against
 # different trees (VERIF_REPO copies, seed tests) must not interleave
 with Lock("c18-check"):
+    gen_c18.HOLDING = True
     main()
